@@ -102,4 +102,16 @@ def rule_b(ctx):
     return r
 
 
-RULES = [rule_a, rule_b]
+
+def rule_c(ctx):
+    """Compressed-only colour spellings (short hex, names) denote the same colour: shared with C15-c."""
+    from . import c15
+    r = c15.rule_c(ctx)
+    r.rule = "C06-c"
+    r.title = "compressed colour spellings are equivalent: " + r.title
+    for v in r.violations:
+        v.rule = "C06-c"
+    return r
+
+
+RULES = [rule_a, rule_b, rule_c]
